@@ -51,7 +51,7 @@ def probes():
     return ["gen_wrote_output", "gen_refused_without_writing", "gen_refused_existing_output", "existing_output_is_torso",
             "import_inference_on", "prepend", "imports_from_file", "multi_entry_input", "json_input", "phase_1_or_2",
             "fault_fired", "crash_fired", "user_deleted_output", "i4_checked", "existing_output_spelled_tilde",
-            "existing_output_spelled_relative"] + ["wrote_emit_" + e for e in
+            "existing_output_spelled_relative", "mixed_kind_input"] + ["wrote_emit_" + e for e in
                                                                                   ("class", "argparse", "sqlalchemy",
                                                                                    "sqlalchemy_table", "json_schema")]
 
@@ -59,15 +59,25 @@ def probes():
 # ------------------------------------------------------------------------------------ generators
 @st.composite
 def entries(draw):
-    kind = draw(st.sampled_from(("class", "class", "function", "argparse", "json")))
-    n = 1 if kind == "json" else draw(st.integers(1, 5))
-    pool = {"class": gen.CLASS_NAMES, "function": gen.FUNC_NAMES, "json": ("alpha", "config", "user_profile"),
+    kind = draw(st.sampled_from(("class", "class", "function", "argparse", "json", "mixed")))
+    n = 1 if kind == "json" else draw(st.integers(2, 4)) if kind == "mixed" else draw(st.integers(1, 5))
+    pool = {"class": gen.CLASS_NAMES, "mixed": gen.CLASS_NAMES, "function": gen.FUNC_NAMES,
+            "json": ("alpha", "config", "user_profile"),
             "argparse": ("set_cli_args", "set_cli_args_b", "set_cli_args_c", "set_cli_args_d", "set_cli_args_e")}[kind]
     names = draw(st.lists(st.sampled_from(pool), min_size=n, max_size=n, unique=True))
     out = []
     for nm in names:
-        out.append(draw(gen.interface_spec(name=nm, min_params=1, max_params=4, types=c12.TYPES, returns=False,
-                                           optional_needs_default=True)))
+        sp = draw(gen.interface_spec(name=nm, min_params=1, max_params=4, types=c12.TYPES, returns=False,
+                                     optional_needs_default=True))
+        if kind == "mixed":
+            # a module mixing plain classes and SQLAlchemy declarative classes (read with --parse infer)
+            sp["entry_kind"] = draw(st.sampled_from(("class", "sqlalchemy")))
+            if sp["entry_kind"] == "sqlalchemy":
+                for p in sp["params"]:
+                    p["typ"] = {"int": "int", "float": "float", "str": "str", "bool": "bool"}.get(p["typ"], "str")
+                    if p["typ"] == "str" and p.get("default") is not None and not p["default"].startswith("'"):
+                        p["default"] = "'a'"
+        out.append(sp)
     return {"kind": kind, "specs": out}
 
 
@@ -127,8 +137,14 @@ def render_input(ent):
                "description": spec["doc"], "type": "object", "properties": props, "required": required}
         return {"%s.json" % spec["name"]: json.dumps(doc, indent=2)}, "%s.json" % spec["name"]
     parts = ["from typing import Literal, Optional", "", ""]
+    if kind == "mixed":
+        # no module-level assignment: `--parse infer` on a file treats every top-level Assign as a table
+        parts = ["from typing import Literal, Optional", "from sqlalchemy import Boolean, Column, Float, Integer, String",
+                 "from models_base import Base", "", ""]
     for spec in ent["specs"]:
-        if kind == "class":
+        if kind == "mixed" and spec.get("entry_kind") == "sqlalchemy":
+            parts.append(render_sqlalchemy(spec))
+        elif kind in ("class", "mixed"):
             parts.append(gen.render_class(spec))
         elif kind == "function":
             parts.append(gen.render_function(spec, style="rest", annotate=False, body=["print(%r)" % spec["name"]]))
@@ -138,10 +154,28 @@ def render_input(ent):
     return {"m.py": "\n".join(parts)}, "m.py"
 
 
+def render_sqlalchemy(spec):
+    """A declarative SQLAlchemy class (own renderer)."""
+    col = {"int": "Integer", "float": "Float", "str": "String", "bool": "Boolean"}
+    lines = ["class %s(Base):" % spec["name"], '    """', "    " + spec["doc"], ""]
+    for p in spec["params"]:
+        lines.append("    :cvar %s: %s" % (p["name"], p["doc"]))
+    lines += ['    """', "", '    __tablename__ = "%s"' % spec["name"].lower(), ""]
+    for i, p in enumerate(spec["params"]):
+        extra = ", primary_key=True" if i == 0 else ""
+        if p.get("default") is not None and i:
+            extra += ", default=%s" % p["default"]
+        elif i:
+            extra += ", nullable=False"
+        lines.append("    %s = Column(%s, doc=%r%s)" % (p["name"], col[p["typ"]], p["doc"], extra))
+    return "\n".join(lines) + "\n"
+
+
 def argv_of(stp, ent, in_rel):
     parse = stp["parse"]
     if parse == "explicit":
-        parse = {"class": "class", "function": "function", "argparse": "argparse", "json": "json_schema"}[ent["kind"]]
+        parse = {"class": "class", "function": "function", "argparse": "argparse", "json": "json_schema",
+                 "mixed": "infer"}[ent["kind"]]
     out = {"abs": "{ROOT}/out.py", "rel": "out.py", "tilde": "~/out.py", "dotslash": "./sub/../out.py"}[stp.get("spelling", "abs")]
     argv = ["gen", "--name-tpl", stp["tpl"], "--input-mapping", "{ROOT}/" + in_rel, "--parse", parse, "--emit", stp["emit"],
             "-o", out]
@@ -226,10 +260,13 @@ def check_output(ent, stp, text, in_text):
                       "sig": {"what": "unbound_name", "emit": emit, "names": unbound}})
     # I4 read back
     if emit in ("class", "function", "argparse") and not missing and ent["kind"] != "json":
-        pk = {"class": "class", "function": "function", "argparse": "argparse_function"}
+        pk = {"class": "class", "function": "function", "argparse": "argparse_function", "mixed": "class"}
         for spec, name in zip(ent["specs"], want):
             try:
-                src_ir = c12.cdd_parse(in_text, pk[ent["kind"]], spec["name"])
+                if spec.get("entry_kind") == "sqlalchemy":
+                    src_ir = _sa_parse(in_text, spec["name"])
+                else:
+                    src_ir = c12.cdd_parse(in_text, pk[ent["kind"]], spec["name"])
                 out_ir = c12.cdd_parse(text, pk[emit], name)
             except BaseException as e:
                 v.append({"clause": "I4", "detail": "symbol %s cannot be parsed back: %s: %s" % (name, type(e).__name__, e),
@@ -238,6 +275,17 @@ def check_output(ent, stp, text, in_text):
             if src_ir is None or out_ir is None:
                 continue
             a = c12.iface_of(src_ir)
+            if spec.get("entry_kind") == "sqlalchemy":
+                # a SQLAlchemy source entry: names, order and types must survive (defaults/nullability are encoded
+                # differently by the SQLAlchemy reader, so they are not compared)
+                b = c12.iface_of(out_ir)
+                got = [(x[0], (x[1] or "").replace("Optional[", "").rstrip("]")) for x in b if x[0] != "__tablename__"]
+                exp = [(x[0], (x[1] or "").replace("Optional[", "").rstrip("]")) for x in a if x[0] != "__tablename__"]
+                if got != exp:
+                    v.append({"clause": "I4", "detail": "generated %s differs from SQLAlchemy source entry %s: (name, type) %s vs "
+                                                        "%s" % (name, spec["name"], got, exp),
+                              "sig": {"what": "interface_differs", "emit": emit, "kind": "sqlalchemy_entry", "lossy": None}})
+                continue
             if not c12.in_domain(a):
                 continue
             d, lossy = c12.compare_iface(a, c12.iface_of(out_ir), pk[emit])
@@ -246,6 +294,14 @@ def check_output(ent, stp, text, in_text):
                     name, spec["name"], "; ".join(d[:3])),
                     "sig": {"what": "interface_differs", "emit": emit, "kind": ent["kind"], "lossy": lossy}})
     return v
+
+
+def _sa_parse(text, name):
+    import cdd.sqlalchemy.parse
+    from cdd.shared.source_transformer import ast_parse
+    mod = ast_parse(text, filename="<input>")
+    node = next(n for n in mod.body if isinstance(n, ast.ClassDef) and n.name == name)
+    return cdd.sqlalchemy.parse.sqlalchemy(node)
 
 
 # ------------------------------------------------------------------------------------ simulation
@@ -284,6 +340,8 @@ def simulate(plan):
         bump(probe, "multi_entry_input")
     if ent["kind"] == "json":
         bump(probe, "json_input")
+    if ent["kind"] == "mixed":
+        bump(probe, "mixed_kind_input")
     history = []
     concrete = dict(plan, steps=[])
     wrote = False
